@@ -80,6 +80,21 @@ def _directed():
         sc([[["set"] + R0 + [2147483647], ["set"] + R1 + [1], ["add"] + R2 + R0 + R1]], hw=True),  # overflow
         F25_WITNESS,
     ]
+    # qalloc/qfree bookkeeping with holes in the physical pool (non-LIFO frees, re-allocation)
+    Q1, Q2 = [2, 1], [2, 2]
+
+    def al(reg, v):
+        return [["set"] + reg + [v], ["qalloc"] + reg]
+
+    def fr(reg, v):
+        return [["set"] + reg + [v], ["qfree"] + reg]
+    out += [
+        sc([al(Q0, 0) + al(Q1, 1) + fr(Q0, 0) + al(Q0, 0) + fr(Q1, 1) + fr(Q0, 0)], n=2),
+        sc([al(Q0, 0) + al(Q1, 1), fr(Q0, 0), al(Q0, 0), fr(Q0, 0) + fr(Q1, 1)], n=2),       # across subroutines
+        sc([al(Q0, 0) + al(Q1, 1) + al(Q2, 2) + fr(Q1, 1) + fr(Q0, 0) + al(Q2, 3) + al(Q0, 1) + al(Q1, 0)
+            + fr(Q2, 2) + fr(Q2, 3) + fr(Q0, 1) + fr(Q1, 0)], n=4),
+        sc([al(Q0, -1) + al(Q1, 0) + fr(Q1, 0) + al(Q2, 1) + al(Q1, 0) + fr(Q0, 2) + fr(Q2, 1)], n=3),
+    ]
     return out
 
 
@@ -108,10 +123,12 @@ def run(ctx):
     res = Result()
     res.rule = ("random subroutines over the core set (unstructured targets, all banks, arrays 0..40, undefined "
                 "entries, negative/32-bit-boundary values), 1-4 subroutines per application, step bound 40/120; "
-                "every 3rd scenario in hardware mode, every 7th through the QNodeController message handlers; "
+                "every 3rd scenario in hardware mode, every 7th through the QNodeController message handlers, every "
+                "5th an allocation pattern (several qubit registers, non-LIFO frees leaving holes, re-allocation "
+                "across subroutines); "
                 "a scenario is non-trivial when at least 3 instructions were executed; distinct by scenario JSON")
     rng = ctx.rng
-    n_random = 150000 if ctx.thorough else 12000
+    n_random = 150000 if ctx.thorough else 9000
     drv = ctx.driver
 
     def differs(c):
@@ -159,7 +176,7 @@ def run(ctx):
         hw = k % 3 == 2
         msg = k % 7 == 6
         g = H.Gen(rng, hw=hw, encodable=msg)
-        sc = g.c04_scenario()
+        sc = g.alloc_scenario() if k % 5 == 4 else g.c04_scenario()
         if msg:
             sc["msg"] = True
         check(sc, "random")
